@@ -1,32 +1,22 @@
-"""Writes MANIFEST.json from the table below (kept in one place so it stays valid)."""
-import json, os
+"""Writes MANIFEST.json from harness/manifest.d/<id>.json (one fragment per claimed property:
+{"text", "note", "technique", "design", optional "category", optional "na_reason"}).
+A property without a fragment (or whose fragment has "na_reason") goes to not_applicable."""
+import glob
+import json
+import os
 VERIF = os.path.dirname(os.path.dirname(os.path.abspath(__file__)))
 
-CHECKS = {
- "C15": dict(
-   text="Coq proof over an executable Gallina model of DictList (list + incremental id->position dictionary): "
-        "every operation preserves index coherence, refines a plain unique-id list specification, and leaves "
-        "the list unchanged when it raises; lifted to all histories by induction. Tied to the code on every run "
-        "by a correspondence check (all single steps over a bounded space + random histories, model evaluated by "
-        "vm_compute in coqc on the implementation's observations) and the Coq-defined coherence monitor on the "
-        "real list and _dict.",
-   note="Trusted: Coq kernel + vm_compute, the Python harness and Coq term printer, CPython list semantics as "
-        "modelled (slice index adjustment, list.insert clamping). Not modelled: regex queries, renaming elements "
-        "while they are in a list.",
-   technique="Coq proof (invariant + refinement by induction over operation lists) + model/implementation correspondence",
-   design="4 C15"),
-}
-
-NOT_YET = {}
 
 def main():
     props = [json.loads(l) for l in open(os.path.join(VERIF, "properties.jsonl"))]
-    checks = []
-    na = []
+    frags = {}
+    for p in glob.glob(os.path.join(VERIF, "harness", "manifest.d", "*.json")):
+        frags[os.path.basename(p)[:-5]] = json.load(open(p))
+    checks, na = [], []
     for p in props:
         pid = p["id"]
-        if pid in CHECKS:
-            c = CHECKS[pid]
+        c = frags.get(pid)
+        if c and not c.get("na_reason") and os.path.exists(os.path.join(VERIF, "harness", pid.lower() + ".py")):
             checks.append({
                 "property_id": pid,
                 "quick_cmd": "bin/check %s --tier quick" % pid,
@@ -34,27 +24,35 @@ def main():
                 "evidence_file": "/verif/evidence/%s.json" % pid,
                 "replay_cmd_template": "bin/check %s --replay {path}" % pid,
                 "engine": "coq-proof+correspondence",
-                "level_claimed": {"category": "proof", "text": c["text"], "design_ref": "DESIGN.md section " + c["design"]},
+                "level_claimed": {"category": c.get("category", "proof"), "text": c["text"],
+                                  "design_ref": "DESIGN.md section " + c["design"]},
                 "level_note": c["note"],
                 "technique": c["technique"],
             })
         else:
-            na.append({"property_id": pid, "reason": NOT_YET.get(pid, "check not built yet in this round (Coq model planned in DESIGN.md section 4); not claimed")})
+            na.append({"property_id": pid, "reason": (c or {}).get(
+                "na_reason", "no check built yet (Coq model planned in DESIGN.md section 4); not claimed")})
     m = {
         "version": 1,
         "setup_cmd": "bin/setup",
-        "hooks": {"guard": "COBRAPY_VERIF", "enable": "no hooks are installed in /repo; fault injection and observation are done from the harness by wrapping functions at run time",
-                  "baseline_off_cmd": "cd /repo && /venv/bin/python -m pytest -ra -q -p no:cacheprovider --timeout=900 --continue-on-collection-errors",
+        "hooks": {"guard": "COBRAPY_VERIF",
+                  "enable": "no hooks are installed in /repo; fault injection and observation are done from the "
+                            "harness by wrapping functions at run time",
+                  "baseline_off_cmd": "cd /repo && /venv/bin/python -m pytest -ra -q -p no:cacheprovider "
+                                      "--timeout=900 --continue-on-collection-errors",
                   "source_commits": [], "add_only": True},
         "engines": [{"name": "coq-proof+correspondence", "path": "coq/ harness/ bin/check",
-                     "serves_properties": sorted(CHECKS),
-                     "kind_free_text": "Gallina models + Coq 8.16.1 proofs (coq/theories), regenerated tables (harness/translate_tables.py), "
-                                       "correspondence check running model (vm_compute in coqc) and implementation on the same cases"}],
+                     "serves_properties": sorted(c["property_id"] for c in checks),
+                     "kind_free_text": "Gallina models + Coq 8.16.1 proofs (coq/theories), tables regenerated from the "
+                                       "source (harness/translate_tables.py), correspondence check running model "
+                                       "(vm_compute in coqc) and implementation on the same cases"}],
         "checks": checks,
         "not_applicable": na,
-        "notes": "All checks: bin/check <id> [--tier quick|thorough] [--seed N] [--replay file]; VERIF_SEED / VERIF_TIER are honoured.",
+        "notes": "All checks: bin/check <id> [--tier quick|thorough] [--seed N] [--replay file]; VERIF_SEED / "
+                 "VERIF_TIER are honoured.",
     }
     json.dump(m, open(os.path.join(VERIF, "MANIFEST.json"), "w"), indent=1)
+
 
 if __name__ == "__main__":
     main()
